@@ -1126,3 +1126,58 @@ func stripIte(t string) string {
 	}
 	return "(" + strings.Join(parts, " ") + ")"
 }
+
+// evalGoal evaluates a clause that is about to be PROVED: universal quantifiers in positive position (at the top,
+// under a conjunction, in the consequent of an implication, inside a transparent pure predicate) are replaced by
+// fresh constants. The solvers then face a ground goal and only have to instantiate the assumptions.
+func (s *Session) evalGoal(se *SpecEnv, e SExpr) T {
+	switch x := e.(type) {
+	case *SQuant:
+		if x.Forall {
+			vars := map[string]Val{}
+			for i, vn := range x.Vars {
+				sort := SInt
+				var typ types.Type = types.Typ[types.UntypedInt]
+				if x.Sorts[i] == "bool" {
+					sort = SBool
+					typ = types.Typ[types.Bool]
+				} else if x.Sorts[i] != "int" {
+					typ = s.resolveType(se.pkg, x.Sorts[i])
+				}
+				c := s.fresh("sk_"+vn, sort)
+				vars[vn] = Val{Typ: typ, L: []T{c}}
+			}
+			return s.evalGoal(se.with(vars), x.Body)
+		}
+	case *SBin:
+		switch x.Op {
+		case "==>":
+			return Imp(s.evalBool(se, x.L), s.evalGoal(se, x.R))
+		case "&&":
+			return And(s.evalGoal(se, x.L), s.evalGoal(se, x.R))
+		}
+	case *SCall:
+		if x.Recv == nil {
+			if pf := s.lookupPure(se, x.Fun); pf != nil && !pf.Opaque && len(x.Args) == len(pf.Params) && se.depth < 40 {
+				vars := map[string]Val{}
+				ppkg := s.eng.typesPkg(pf.Pkg)
+				for i, p := range pf.Params {
+					v := s.evalSpec(se, x.Args[i])
+					if v.Typ == nil || v.Typ == types.Typ[types.UntypedNil] || v.Typ == types.Typ[types.UntypedInt] {
+						pt := s.resolveType(ppkg, p.Type)
+						if len(shape(pt)) == len(v.L) {
+							v.Typ = pt
+						}
+					}
+					vars[p.Name] = v
+				}
+				n := &SpecEnv{sess: s, pkg: ppkg, vars: vars, st: se.st, old: se.old, pre: se.pre, fr: se.fr, depth: se.depth + 1}
+				if n.pkg == nil {
+					n.pkg = se.pkg
+				}
+				return s.evalGoal(n, pf.Body)
+			}
+		}
+	}
+	return s.evalBool(se, e)
+}
